@@ -319,5 +319,71 @@ pub fn mixed(rng: &mut StdRng, n: usize) -> Vec<Board> {
     res
 }
 
+/// Squares of the four rays of a slider from `sq` (rook or bishop directions), each ray in walking order.
+pub fn rays(sq: usize, rook: bool) -> Vec<Vec<usize>> {
+    let dirs: [(i32, i32); 4] = if rook { [(1, 0), (-1, 0), (0, 1), (0, -1)] } else { [(1, 1), (1, -1), (-1, 1), (-1, -1)] };
+    let (f0, r0) = ((sq % 8) as i32, (sq / 8) as i32);
+    dirs.iter()
+        .map(|(df, dr)| {
+            let mut v = Vec::new();
+            let (mut f, mut r) = (f0 + df, r0 + dr);
+            while (0..8).contains(&f) && (0..8).contains(&r) {
+                v.push((r * 8 + f) as usize);
+                f += df;
+                r += dr;
+            }
+            v
+        })
+        .collect()
+}
+
+/// The "relevant occupancy" squares of a slider on `sq`: every ray square except the last one of each ray.
+pub fn relevant_squares(sq: usize, rook: bool) -> Vec<usize> {
+    rays(sq, rook).into_iter().flat_map(|r| { let n = r.len().saturating_sub(1); r.into_iter().take(n) }).collect()
+}
+
+/// A valid position realising one occupancy pattern around `sq`: knights (which never attack along lines) on the
+/// chosen subset of the relevant squares, sliders of one colour on the far ends of the rays, kings out of the way.
+pub fn occupancy_position(rng: &mut StdRng, sq: usize, rook: bool, subset: u64) -> Option<Board> {
+    let rel = relevant_squares(sq, rook);
+    let ends: Vec<usize> = rays(sq, rook).into_iter().filter_map(|r| r.last().copied()).collect();
+    for _ in 0..30 {
+        let mut r = RawBoard::empty();
+        let att = if rng.gen_bool(0.5) { Color::White } else { Color::Black };
+        let mut cnt = [0usize; 2];
+        for (i, s) in rel.iter().enumerate() {
+            if subset & (1 << i) != 0 {
+                let c = if cnt[0] <= cnt[1] { Color::White } else { Color::Black };
+                cnt[c as usize] += 1;
+                r.cells[*s] = Cell::from_parts(c, Piece::Knight);
+            }
+        }
+        for e in ends.iter() {
+            if rng.gen_bool(0.85) {
+                let pc = if rng.gen_bool(0.3) { Piece::Queen } else if rook { Piece::Rook } else { Piece::Bishop };
+                r.cells[*e] = Cell::from_parts(att, pc);
+            }
+        }
+        if rng.gen_bool(0.3) {
+            r.cells[sq] = Cell::from_parts(att.inv(), Piece::Knight);
+        }
+        let free: Vec<usize> = (0..64).filter(|i| r.cells[*i] == Cell::EMPTY && *i != sq).collect();
+        let wk = *free.choose(rng)?;
+        let bk = *free.choose(rng)?;
+        if wk == bk {
+            continue;
+        }
+        r.cells[wk] = Cell::from_parts(Color::White, Piece::King);
+        r.cells[bk] = Cell::from_parts(Color::Black, Piece::King);
+        for side in [Color::White, Color::Black] {
+            r.side = side;
+            if let Ok(b) = Board::try_from(r) {
+                return Some(b);
+            }
+        }
+    }
+    None
+}
+
 #[allow(dead_code)]
 pub fn unused(_: File, _: Rank, _: CastlingSide) {}
